@@ -370,6 +370,7 @@ package log
 //@   synchronous[C20]
 //@   requires c != nil && c.Appender != nil && e != nil
 //@   modifies dlv
+//@   ensures[C10:the-hooks-are-invoked-by-record-only] calls(TimeNow) == old(calls(TimeNow)) && calls(StringFromContext) == old(calls(StringFromContext)) && calls(FieldsFromContext) == old(calls(FieldsFromContext))
 //@   ensures[C01:ref-filter] dlv == (enable(c.Level, e.Level) ? tsnoc(old(dlv), 1, ifval(c.Appender), e, e.Level.code, "") : old(dlv))
 
 //@ func (*AppenderRef).Write
@@ -416,6 +417,7 @@ package log
 //@   let lvl = e.Level
 //@   let n = len(c.AppenderRefs.AppenderRefs)
 //@   modifies dlv, lastBytes, *e, pooled[e]
+//@   ensures[C10:the-hooks-are-invoked-by-record-only] calls(TimeNow) == old(calls(TimeNow)) && calls(StringFromContext) == old(calls(StringFromContext)) && calls(FieldsFromContext) == old(calls(FieldsFromContext))
 //@   ensures[C01,C20:sync-events] c.Layout == nil ==> dlv == (on ? fanout(c.AppenderRefs, n, e, lvl, old(dlv)) : old(dlv))
 //@   ensures[C01,C20:sync-layout] c.Layout != nil ==> dlv == (on ? fanoutW(c.AppenderRefs, n, lvl, sref(lastBytes), len(lastBytes), content(lastBytes), old(dlv)) : old(dlv))
 //@   ensures[C03:consumed] pooled[e]
@@ -424,18 +426,21 @@ package log
 //@   synchronous[C20]
 //@   requires Stdout != nil
 //@   modifies sink
+//@   ensures[C10:the-hooks-are-invoked-by-record-only] calls(TimeNow) == old(calls(TimeNow)) && calls(StringFromContext) == old(calls(StringFromContext)) && calls(FieldsFromContext) == old(calls(FieldsFromContext))
 //@   ensures[C03,C12,C20:one-write] sink == tsnoc(old(sink), 3, ifval(Stdout), sref(b), len(b), content(b))
 
 //@ func (*ConsoleAppender).Append
 //@   synchronous[C20]
 //@   requires c != nil && c.Layout != nil && e != nil && Stdout != nil
 //@   modifies sink, lastBytes
+//@   ensures[C10:the-hooks-are-invoked-by-record-only] calls(TimeNow) == old(calls(TimeNow)) && calls(StringFromContext) == old(calls(StringFromContext)) && calls(FieldsFromContext) == old(calls(FieldsFromContext))
 //@   ensures[C03,C20:one-line] sink == tsnoc(old(sink), 3, ifval(Stdout), sref(lastBytes), len(lastBytes), content(lastBytes))
 
 //@ func (*ConsoleLogger).Append
 //@   synchronous[C20]
 //@   requires c != nil && e != nil && c.ConsoleAppender.Layout != nil && Stdout != nil
 //@   modifies sink, lastBytes
+//@   ensures[C10:the-hooks-are-invoked-by-record-only] calls(TimeNow) == old(calls(TimeNow)) && calls(StringFromContext) == old(calls(StringFromContext)) && calls(FieldsFromContext) == old(calls(FieldsFromContext))
 //@   ensures[C01:console-gate] !enable(c.Level, e.Level) ==> sink == old(sink)
 //@   ensures[C01,C20:console-once] enable(c.Level, e.Level) ==> sink == tsnoc(old(sink), 3, ifval(Stdout), sref(lastBytes), len(lastBytes), content(lastBytes))
 
@@ -443,6 +448,7 @@ package log
 //@   synchronous[C20]
 //@   requires c != nil
 //@   modifies sink
+//@   ensures[C10:the-hooks-are-invoked-by-record-only] calls(TimeNow) == old(calls(TimeNow)) && calls(StringFromContext) == old(calls(StringFromContext)) && calls(FieldsFromContext) == old(calls(FieldsFromContext))
 //@   nopanic[C19]
 //@   ensures[C03,C12,C20:one-write] sink == tsnoc(old(sink), 3, c.file, sref(b), len(b), content(b))
 
@@ -450,12 +456,14 @@ package log
 //@   synchronous[C20]
 //@   requires c != nil && c.Layout != nil && e != nil
 //@   modifies sink, lastBytes
+//@   ensures[C10:the-hooks-are-invoked-by-record-only] calls(TimeNow) == old(calls(TimeNow)) && calls(StringFromContext) == old(calls(StringFromContext)) && calls(FieldsFromContext) == old(calls(FieldsFromContext))
 //@   ensures[C03,C20:one-line] sink == tsnoc(old(sink), 3, c.file, sref(lastBytes), len(lastBytes), content(lastBytes))
 
 //@ func (*FileLogger).Append
 //@   synchronous[C20]
 //@   requires c != nil && e != nil && c.FileAppender.Layout != nil
 //@   modifies sink, lastBytes
+//@   ensures[C10:the-hooks-are-invoked-by-record-only] calls(TimeNow) == old(calls(TimeNow)) && calls(StringFromContext) == old(calls(StringFromContext)) && calls(FieldsFromContext) == old(calls(FieldsFromContext))
 //@   ensures[C01:file-gate] !enable(c.Level, e.Level) ==> sink == old(sink)
 //@   ensures[C01,C20:file-once] enable(c.Level, e.Level) ==> sink == tsnoc(old(sink), 3, c.FileAppender.file, sref(lastBytes), len(lastBytes), content(lastBytes))
 
@@ -583,6 +591,7 @@ package log
 //@   let ls = global.loggers
 //@   let as = global.appenders
 //@   modifies stops, global, all(Tag.logger), all(LoggerWrapper.logger)
+//@   ensures[C10:the-hooks-are-the-applications] TimeNow == old(TimeNow) && StringFromContext == old(StringFromContext) && FieldsFromContext == old(FieldsFromContext)
 //@   ensures[C16:idle] !old(global.init) ==> stops == old(stops) && (forall t string :: has(tagRegistry, t) ==> tagRegistry[t].logger == old(tagRegistry[t].logger))
 //@   ensures[C05:loggers-before-appenders] old(global.init) ==> stops == stopA(as, len(as), stopL(ls, len(ls), old(stops)))
 //@   ensures[C16:tags-unbound] old(global.init) ==> (forall t string :: has(tagRegistry, t) ==> tagRegistry[t].logger == nil)
@@ -607,8 +616,11 @@ package log
 
 //@ spec rec fun rmAll(es smt:(Array Int Iface), k int, dir string, f string, cut smt:S_time_Time, base Trace) Trace = k <= 0 ? base : (expiredEntry(es[k-1], f, cut) ? tsnoc(rmAll(es, k-1, dir, f, cut, base), 6, 0, 0, 0, dir + "/" + fs.DirEntry.Name(es[k-1])) : rmAll(es, k-1, dir, f, cut, base))
 
+// (the cleanup has no notion of "the file being written": what keeps that file is that the cleanup is
+// started only when the current file is the one just created for the running interval, hence not expired)
 //@ func (*RollingFileAppender).clearExpiredFiles
 //@   requires c != nil && 0 <= c.MaxAge && c.MaxAge <= 2562047
+//@   requires[C14:started-only-when-the-current-file-is-the-one-of-the-running-interval] atomPtr[c.file] != nil && fdPath[atomPtr[c.file]] == rfaPath(c, lastNow)
 //@   modifies rm, lastNow, dirEntries, dirCount
 //@   ensures[C14:exactly-own-expired] rm == rmAll(dirEntries, dirCount, c.FileDir, c.FileName, time_add(lastNow, 0 - c.MaxAge * 3600000000000), old(rm))
 //@   loop 1 invariant[C14:range] 0 <= $k && $k <= dirCount && dirCount == len(entries)
@@ -711,6 +723,7 @@ package log
 //@ func (*RollingFileLogger).Append
 //@   requires f != nil && f.logger != nil && e != nil && !pooled[e]
 //@   modifies appended[f.logger], lastLevel[f.logger], lastTag[f.logger], lastFields[f.logger], lastFile[f.logger], lastLine[f.logger], lastTime[f.logger], lastCtxString[f.logger], lastCtxFields[f.logger], *e, pooled[e]
+//@   ensures[C10:the-hooks-are-invoked-by-record-only] calls(TimeNow) == old(calls(TimeNow)) && calls(StringFromContext) == old(calls(StringFromContext)) && calls(FieldsFromContext) == old(calls(FieldsFromContext))
 //@   ensures[C01,C03:forward-once] appended[f.logger] == old(appended[f.logger]) + 1 && lastLevel[f.logger] == old(e.Level) && lastTag[f.logger] == old(e.Tag)
 
 //@ func (*RollingFileLogger).Write
@@ -744,6 +757,7 @@ package log
 //@ func (*AsyncLogger).onBufferFull
 //@   requires asyncReady(c) && ((dyn(v, *Event) && ifval(v) != 0 && !pooled[ifval(v)]) || dyn(v, []byte))
 //@   modifies enq, deq, chlog, blocked, pooled, c.discardCounter, all(Event)
+//@   ensures[C10:the-hooks-are-invoked-by-record-only] calls(TimeNow) == old(calls(TimeNow)) && calls(StringFromContext) == old(calls(StringFromContext)) && calls(FieldsFromContext) == old(calls(FieldsFromContext))
 //@   ensures[C04,C06:discard-drops-the-arriving-item] c.BufferFullPolicy == 1 ==> enq == old(enq) && deq == old(deq) && c.discardCounter == old(c.discardCounter) + 1 && blocked == old(blocked)
 //@   ensures[C04,C06:block-waits-and-enqueues] c.BufferFullPolicy == 0 ==> enq == tsnoc(old(enq), 9, c.buf, ifval(v), iftag(v), "") && deq == old(deq) && c.discardCounter == old(c.discardCounter)
 //@   ensures[C04,C06:discard-oldest-keeps-the-arriving-item] c.BufferFullPolicy == 2 ==> enq == tsnoc(old(enq), 9, c.buf, ifval(v), iftag(v), "") && blocked == old(blocked) && c.discardCounter - old(c.discardCounter) == tlen(deq) - tlen(old(deq))
@@ -756,6 +770,7 @@ package log
 //@   requires asyncReady(c) && e != nil && !pooled[e]
 //@   let on = enable(c.Level, e.Level)
 //@   modifies enq, deq, chlog, blocked, pooled, c.discardCounter, all(Event)
+//@   ensures[C10:the-hooks-are-invoked-by-record-only] calls(TimeNow) == old(calls(TimeNow)) && calls(StringFromContext) == old(calls(StringFromContext)) && calls(FieldsFromContext) == old(calls(FieldsFromContext))
 //@   ensures[C01,C04:below-level-neither-delivered-nor-counted] !on ==> enq == old(enq) && deq == old(deq) && c.discardCounter == old(c.discardCounter)
 //@   ensures[C04:accounted] on ==> (tlen(enq) - tlen(old(enq))) + (c.discardCounter - old(c.discardCounter)) == 1 + (tlen(deq) - tlen(old(deq)))
 //@   ensures[C04,C06:what-is-enqueued-is-the-event] enq == old(enq) || enq == tsnoc(old(enq), 9, c.buf, e, typetag(*Event), "")
@@ -794,6 +809,7 @@ package log
 //@ func (*AsyncLogger).Start$1
 //@   requires c != nil && c.buf != nil && c.wait != nil && !closed[c.wait] && c.stop != nil && wfRefs(c.AppenderRefs)
 //@   modifies deq, chlog, blocked, pooled, dlv, lastBytes, all(Event), closed[c.wait]
+//@   ensures[C10:the-hooks-are-invoked-by-record-only] calls(TimeNow) == old(calls(TimeNow)) && calls(StringFromContext) == old(calls(StringFromContext)) && calls(FieldsFromContext) == old(calls(FieldsFromContext))
 //@   loop 1 invariant[C05:wait-open] !closed[c.wait]
 //@   loop 1 iteration[C01,C04:event-delivered-exactly-once] dyn(v, *Event) && c.Layout == nil ==> dlv == fanout(c.AppenderRefs, len(c.AppenderRefs.AppenderRefs), as(v, *Event), iter(as(v, *Event).Level), iter(dlv))
 //@   loop 1 iteration[C01,C04:event-formatted-and-delivered-exactly-once] dyn(v, *Event) && c.Layout != nil ==> dlv == fanoutW(c.AppenderRefs, len(c.AppenderRefs.AppenderRefs), iter(as(v, *Event).Level), sref(lastBytes), len(lastBytes), content(lastBytes), iter(dlv))
@@ -1408,6 +1424,7 @@ package log
 //@ func (*TextLayout).ToBytes
 //@   requires c != nil && e != nil && wf_fields(e.CtxFields) && wf_fields(e.Fields)
 //@   modifies pooled, out, stk, tok, encState, encBuf, lastEnc, elems(string), all(JSONEncoder.last), all(TextEncoder.jsonDepth), all(TextEncoder.hasWritten), lastMarshal, lastMarshalErr
+//@   ensures[C10:the-hooks-are-invoked-by-record-only] calls(TimeNow) == old(calls(TimeNow)) && calls(StringFromContext) == old(calls(StringFromContext)) && calls(FieldsFromContext) == old(calls(FieldsFromContext))
 //@   ensures[C03:line-owned-by-the-caller] bufOf(sref(result)) == 0 || !pooled[bufOf(sref(result))]
 //@   ensures[C08:header-then-fields-then-one-newline] exists L Bytes :: content(result) == bstr(L) && L == bsnoc(binit(L), 10) && bprefix(old(textPrefix(c, e)), binit(L))
 
@@ -1418,6 +1435,7 @@ package log
 //@ func (*JSONLayout).ToBytes
 //@   requires c != nil && e != nil && wf_fields(e.CtxFields) && wf_fields(e.Fields)
 //@   modifies pooled, out, stk, tok, encState, encBuf, lastEnc, elems(string), elems(Field), all(JSONEncoder.last), all(TextEncoder.jsonDepth), all(TextEncoder.hasWritten), lastMarshal, lastMarshalErr
+//@   ensures[C10:the-hooks-are-invoked-by-record-only] calls(TimeNow) == old(calls(TimeNow)) && calls(StringFromContext) == old(calls(StringFromContext)) && calls(FieldsFromContext) == old(calls(FieldsFromContext))
 //@   ensures[C03:line-owned-by-the-caller] bufOf(sref(result)) == 0 || !pooled[bufOf(sref(result))]
 //@   ensures[C07:one-object-one-newline] exists L Bytes :: content(result) == bstr(L) && L == bsnoc(bsnoc(binit(binit(L)), 125), 10) && bprefix(bsnoc(bnil, 123), binit(binit(L)))
 //@   ensures[C07:member-order] tprefix(old(jsonHeaderToksCtx(c, e)), tok[lastEnc]) && tkind(tok[lastEnc]) == 28 && stk[lastEnc] == stk_child_done(stk0)
@@ -1472,6 +1490,7 @@ package log
 //@   let f0 = atomPtr[c.file]
 //@   let o0 = atomPtr[c.oldFile]
 //@   modifies atomPtr[c.file], atomPtr[c.oldFile], atomI64[c.currTime], fdOpen, fdFlags, fdPath, lastNow, spawned, interfered, nilStores[c.file], nilStores[c.oldFile], casWins[c.currTime]
+//@   ensures[C10:the-hooks-are-invoked-by-record-only] calls(TimeNow) == old(calls(TimeNow)) && calls(StringFromContext) == old(calls(StringFromContext)) && calls(FieldsFromContext) == old(calls(FieldsFromContext))
 //@   nopanic[C19]
 //@   ensures[C03,C13:the-current-file-cell-is-never-emptied] nilStores[c.file] == old(nilStores[c.file])
 //@   ensures[C05,C13:only-the-winner-of-the-boundary-rotates] atomPtr[c.file] != f0 || atomPtr[c.oldFile] != o0 ==> casWins[c.currTime] > old(casWins[c.currTime])
@@ -1481,11 +1500,13 @@ package log
 //@   ensures[C13:new-file-named-by-now] atomPtr[c.file] != f0 ==> fresh(atomPtr[c.file]) && fdOpen[atomPtr[c.file]] && fdPath[atomPtr[c.file]] == rfaPath(c, lastNow) && fdFlags[atomPtr[c.file]] == os.O_CREATE + os.O_WRONLY + os.O_APPEND && atomPtr[c.oldFile] == f0
 //@   ensures[C05:previous-old-file-closed] time_unix(time_trunc(lastNow, c.Rotation.Interval)) > t0 && !interfered && o0 != nil ==> !fdOpen[o0]
 //@   ensures[C19:either-kept-or-replaced] atomPtr[c.file] == f0 || atomPtr[c.oldFile] == f0
+//@   ensures[C14:no-other-cleanup-is-started] spawned == old(spawned) || spawned == tsnoc(old(spawned), 10, fn("(*RollingFileAppender).clearExpiredFiles"), 0, 0, "")
 
 //@ func (*RollingFileAppender).Write
 //@   requires c != nil && 0 <= c.MaxAge && c.MaxAge <= 2562047 && rfaCells(c)
 //@   maintains[C05,C19:current-and-old-file-differ] rfaDistinct(c)
 //@   modifies atomPtr[c.file], atomPtr[c.oldFile], atomI64[c.currTime], fdOpen, fdFlags, fdPath, lastNow, spawned, sink, interfered, nilStores[c.file], nilStores[c.oldFile], casWins[c.currTime]
+//@   ensures[C10:the-hooks-are-invoked-by-record-only] calls(TimeNow) == old(calls(TimeNow)) && calls(StringFromContext) == old(calls(StringFromContext)) && calls(FieldsFromContext) == old(calls(FieldsFromContext))
 //@   nopanic[C19]
 //@   ensures[C03,C13:the-current-file-cell-is-never-emptied] nilStores[c.file] == old(nilStores[c.file])
 //@   ensures[C13,C20:one-write-to-the-current-file] atomPtr[c.file] != nil ==> sink == tsnoc(old(sink), 3, atomPtr[c.file], sref(b), len(b), content(b))
@@ -1495,6 +1516,7 @@ package log
 //@   requires c != nil && c.Layout != nil && e != nil && 0 <= c.MaxAge && c.MaxAge <= 2562047 && rfaCells(c)
 //@   maintains[C05,C19:current-and-old-file-differ] rfaDistinct(c)
 //@   modifies atomPtr[c.file], atomPtr[c.oldFile], atomI64[c.currTime], fdOpen, fdFlags, fdPath, lastNow, spawned, sink, lastBytes, interfered, nilStores[c.file], nilStores[c.oldFile], casWins[c.currTime]
+//@   ensures[C10:the-hooks-are-invoked-by-record-only] calls(TimeNow) == old(calls(TimeNow)) && calls(StringFromContext) == old(calls(StringFromContext)) && calls(FieldsFromContext) == old(calls(FieldsFromContext))
 //@   ensures[C03,C13,C20:one-line] atomPtr[c.file] != nil ==> sink == tsnoc(old(sink), 3, atomPtr[c.file], sref(lastBytes), len(lastBytes), content(lastBytes))
 
 //@ func (*RollingFileAppender).Stop
@@ -1731,6 +1753,7 @@ package log
 //@   ghost cfgTags = cTags
 //@   ghost cfgRoot = cRoot
 //@   ghost cfgLoggers = cLoggers
+//@   ensures[C10:the-hooks-are-the-applications] TimeNow == old(TimeNow) && StringFromContext == old(StringFromContext) && FieldsFromContext == old(FieldsFromContext)
 //@   ensures[C16:second-refresh-is-rejected] old(global.init) ==> result != nil
 //@   ensures[C16:second-refresh-disturbs-nothing] old(global.init) ==> global.init && global.loggers == old(global.loggers) && global.appenders == old(global.appenders) && (forall t string :: has(tagRegistry, t) ==> tagRegistry[t].logger == old(tagRegistry[t].logger)) && (forall n string :: has(loggerMap, n) ==> loggerMap[n].logger == old(loggerMap[n].logger))
 //@   ensures[C11,C15,C16:a-rejected-second-refresh-applies-no-property] old(global.init) ==> (forall k string :: has(propertyRegistry, k) ==> calls(propertyRegistry[k]) == old(calls(propertyRegistry[k])))
@@ -1843,9 +1866,11 @@ package log
 //@   nopanic[C05,C16]
 //@ func (*DiscardAppender).Append
 //@   modifies nothing
+//@   ensures[C10:the-hooks-are-invoked-by-record-only] calls(TimeNow) == old(calls(TimeNow)) && calls(StringFromContext) == old(calls(StringFromContext)) && calls(FieldsFromContext) == old(calls(FieldsFromContext))
 //@   nopanic[C16,C19]
 //@ func (*DiscardAppender).Write
 //@   modifies nothing
+//@   ensures[C10:the-hooks-are-invoked-by-record-only] calls(TimeNow) == old(calls(TimeNow)) && calls(StringFromContext) == old(calls(StringFromContext)) && calls(FieldsFromContext) == old(calls(FieldsFromContext))
 //@   nopanic[C16,C19]
 
 // ---- C15: one attribute of a plugin: configured value, else declared default, else an error; ${key} ----------------
